@@ -34,6 +34,14 @@ def done(ok):
     REACHED[0] += 1
     if TWIN[0]:
         return False
+    if not ok:
+        import vf.tok as _K
+        armed, _K.ARMED[0] = _K.ARMED[0], False
+        if armed and _K.MATCHES[0] == 0:
+            raise Poison("token lines were recognised by something other than the stubbed recognisers (S7' does not apply)")
+    else:
+        import vf.tok as _K
+        _K.ARMED[0] = False
     return ok
 
 
